@@ -139,6 +139,73 @@ def extHeaderTicks (bs : Bytes) : Nat := codedTicks Gen.ExtensionType.codes 2 bs
 /-- `TlsExtensionUnparsed._parse`: type, length, presence check, `parse_raw` -/
 def extUnparsedTicks : Nat := 4
 
+def vecCodedTicks (p : VecParam) (codes : List Nat) (k : Nat) (bs : Bytes) : Nat :=
+  vecItemsTicks p (parseCodedOrFallback codes k) (codedOrFallbackTicks codes k) bs
+
+/-! the structured bodies of CpModel/Tls/Ext2.lean.  Every class reads from the declared extension data only
+(`walkExtVariants` hands the body parser `(bs.drop 4).take len`), so whatever it does is bounded by that data. -/
+
+/-- `OpaqueEnumParsable._parse`: the vector of bytes (`Vector._parse`), the decode, the member search -/
+def nameTicks (p : VecParam) (table : List Gen.WireName) (bs : Bytes) : Nat :=
+  opaqueTicks p bs + table.length + 2
+
+/-- `TlsKeyShareEntry._parse`: the group (a member search), then the key exchange vector -/
+def keyShareKnownTicks (bs : Bytes) : Nat :=
+  codedTicks Gen.TlsNamedCurve.codes 2 bs +
+    match parseCoded Gen.TlsNamedCurve.codes 2 bs with
+    | .ok (_, n) => opaqueTicks keyExchangeParam (bs.drop n)
+    | .error _ => 0
+
+/-- one position of `TlsKeyShareEntryVector`: the strict class, and on `InvalidValue` the fallback class
+(`parse_numeric` of the code, `parse_bytes` = 2) -/
+def keyShareTicks (bs : Bytes) : Nat := keyShareKnownTicks bs + 3
+
+/-- `SignedCertificateTimestamp._parse`: `parse_bytes` (2), then on the blob version, log id, timestamp, the
+extensions (`Opaque`), the algorithm (a member search), the signature (`Opaque`), the sentinel test, the log lookup
+of the constructor — an upper estimate: the two opaque fields cost at most two steps per byte of the blob -/
+def sctTicks (bs : Bytes) : Nat :=
+  2 + match parseBytes .network 2 bs with
+      | .error _ => 0
+      | .ok (sct, _) => 12 + Gen.TlsSignatureAndHashAlgorithm.codes.length + 2 * sct.length
+
+/-- the part of `VectorParsable._parse` after the length prefix (`parseVecBody`): the presence check, the item loop
+on the declared slice, the constructor's pass -/
+def vecBodyTicks (item : Bytes → Except PErr (α × Nat)) (itemTicks : Bytes → Nat) (len : Nat) (rest : Bytes) : Nat :=
+  if rest.length < len then 1
+  else
+    1 + parseItemsTicks item itemTicks len (rest.take len) +
+      match parseItems item len (rest.take len) with
+      | .ok items => 1 + items.length
+      | .error _ => 0
+
+def ext2BodyTicks (k : Ext2Kind) (len : Nat) (rest : Bytes) : Nat :=
+  match k with
+  | .serverName =>
+    -- list length, name type, the host name vector, the two passes of the idna codec over the name (label loop)
+    2 + opaqueTicks serverNameParam (rest.drop 3) +
+      match parseOpaque serverNameParam (rest.drop 3) with
+      | .ok (host, _) => 2 * host.length
+      | .error _ => 0
+  | .protocolNames =>
+    vecItemsTicks protocolNameListParam (parseName protocolNameParam Gen.TlsProtocolName_wire)
+      (nameTicks protocolNameParam Gen.TlsProtocolName_wire) rest
+  | .nextProtocolNames =>
+    1 + vecBodyTicks (parseName nextProtocolNameParam Gen.TlsNextProtocolName_wire)
+      (nameTicks nextProtocolNameParam Gen.TlsNextProtocolName_wire) len rest
+  | .statusRequest =>
+    1 + vecItemsTicks responderIdListParam (parseOpaque responderIdParam) (opaqueTicks responderIdParam) (rest.drop 1) +
+      match parseVecItems responderIdListParam (parseOpaque responderIdParam)
+          (fun d => (composeOpaque responderIdParam d).map (·.length)) (rest.drop 1) with
+      | .ok (_, n2) => opaqueTicks requestExtensionsParam ((rest.drop 1).drop n2)
+      | .error _ => 0
+  | .keyShareClient => vecItemsTicks keyShareListParam parseKeyShare keyShareTicks rest
+  | .keyShareServer => keyShareKnownTicks rest
+  | .keyShareHelloRetry =>
+    -- the test of the declared length belongs to the header check of the alternative (`extHeaderTicks`)
+    if len != 2 then 0 else 1 + codedTicks Gen.TlsNamedCurve.codes 2 rest
+  | .tokenBinding => 3 + vecCodedTicks tokenBindingParam Gen.TlsTokenBindingParamater.codes 1 (rest.drop 2)
+  | .sctList => vecItemsTicks sctListParam parseSct sctTicks rest
+
 def extBodyTicks (kind : ExtKind) (len : Nat) (rest : Bytes) : Nat :=
   match kind with
   | .unusedData => 1
@@ -155,10 +222,7 @@ def extBodyTicks (kind : ExtKind) (len : Nat) (rest : Bytes) : Nat :=
     vecItemsTicks (vp Gen.vec_TlsSupportedVersionVector) parseVersionOrFallback
       (codedOrFallbackTicks Gen.TlsVersion.codes 2) rest
   | .supportedVersionsServer => codedTicks Gen.TlsVersion.codes 2 rest
-  -- the structured bodies of CpModel/Tls/Ext2.lean are OUTSIDE the cost model (`ext2Outside`): their parsers are
-  -- not confined to the declared extension length, and for the name lists (ALPN/ALPS) and the SCT list a body read
-  -- far beyond the extension and then rejected as an invalid value is NOT paid for by the bytes the extension consumes
-  | .ext2 _ => 0
+  | .ext2 k => ext2BodyTicks k len rest
 
 /-- alternatives tried by the walk over the extension variant list (same recursion as `walkExtVariants`) -/
 def walkExtVariantsTicks (t len : Nat) (bs : Bytes) : List (String × Nat) → Nat
@@ -170,7 +234,7 @@ def walkExtVariantsTicks (t len : Nat) (bs : Bytes) : List (String × Nat) → N
       match extKindOf cls with
       | none => 1
       | some kind =>
-        match parseExtBody kind len (bs.drop 4) with
+        match parseExtBody kind len ((bs.drop 4).take len) with
         | .error .invalidType => 1 + walkExtVariantsTicks t len bs more
         | _ => 1
 
@@ -184,22 +248,10 @@ def walkExtBodyTicks (t len : Nat) (bs : Bytes) : List (String × Nat) → Nat
       match extKindOf cls with
       | none => 0
       | some kind =>
-        extBodyTicks kind len (bs.drop 4) +
-          match parseExtBody kind len (bs.drop 4) with
+        extBodyTicks kind len ((bs.drop 4).take len) +
+          match parseExtBody kind len ((bs.drop 4).take len) with
           | .error .invalidType => walkExtBodyTicks t len bs more
           | _ => 0
-
-/-- does the walk run the body parser of a class outside the cost model? (same recursion as `walkExtBodyTicks`) -/
-def walkExtOutside (t len : Nat) (bs : Bytes) : List (String × Nat) → Bool
-  | [] => false
-  | (cls, code) :: more =>
-    if cls == "TlsExtensionUnparsed" then false
-    else if code != t then walkExtOutside t len bs more
-    else
-      match extKindOf cls with
-      | none => true
-      | some (.ext2 _) => true
-      | some _ => false
 
 /-- `TlsExtensionVariantClient/Server._parse`: every alternative tried runs `_check_header` -/
 def extVariantTicks (variants : List (String × Nat)) (bs : Bytes) : Nat :=
@@ -223,46 +275,11 @@ def extTicks (variants : List (String × Nat)) (bs : Bytes) : Nat :=
 def extensionsTicks (variants : List (String × Nat)) (p : VecParam) (bs : Bytes) : Nat :=
   vecItemsTicks p (parseExt variants) (extTicks variants) bs
 
-/-- one position of the extension vector reaches a class outside the cost model -/
-def extOutside (variants : List (String × Nat)) (bs : Bytes) : Bool :=
-  match parseCoded Gen.ExtensionType.codes 2 bs with
-  | .error _ => false
-  | .ok (ti, _) =>
-    match parseNum .network 2 (bs.drop 2) with
-    | .error _ => false
-    | .ok (len, _) =>
-      if (bs.drop 4).length < len then false
-      else walkExtOutside (Gen.ExtensionType.codes.getD ti 0) len bs variants
-
-/-- some position visited by the item loop satisfies `q` (same recursion as `Codec.parseItems`) -/
-def itemsAny (item : Bytes → Except PErr (α × Nat)) (q : Bytes → Bool) : Nat → Bytes → Bool
-  | 0, _ => false
-  | fuel + 1, b =>
-    if b.isEmpty then false
-    else q b ||
-      match item b with
-      | .error _ => false
-      | .ok (_, n) => if n == 0 then false else itemsAny item q fuel (b.drop n)
-
-/-- the extension vector of a hello message reaches a class outside the cost model -/
-def extensionsOutside (variants : List (String × Nat)) (p : VecParam) (bs : Bytes) : Bool :=
-  match parseNum .network p.numSize bs with
-  | .error _ => false
-  | .ok (len, n) =>
-    let rest := bs.drop n
-    if rest.length < len then false else itemsAny (parseExt variants) (extOutside variants) len (rest.take len)
-
-def optExtensionsOutside (variants : List (String × Nat)) (p : VecParam) (pl : Bytes) (pos : Nat) : Bool :=
-  if pos ≥ pl.length then false else extensionsOutside variants p (pl.drop pos)
-
 /-- `_parse_extensions`: the comparison, and the vector when something is left -/
 def optExtensionsTicks (variants : List (String × Nat)) (p : VecParam) (pl : Bytes) (pos : Nat) : Nat :=
   if pos ≥ pl.length then 1 else 1 + extensionsTicks variants p (pl.drop pos)
 
 /-! ## hello messages, certificate -/
-
-def vecCodedTicks (p : VecParam) (codes : List Nat) (k : Nat) (bs : Bytes) : Nat :=
-  vecItemsTicks p (parseCodedOrFallback codes k) (codedOrFallbackTicks codes k) bs
 
 /-- `_parse_hello_header`: version (member search), random (time + 28 bytes), session id vector -/
 def helloHeaderTicks (pl : Bytes) : Nat :=
@@ -296,23 +313,6 @@ def clientHelloInnerTicks (pl : Bytes) : Nat :=
 
 def clientHelloTicks (bs : Bytes) : Nat := hsFramedTicks 1 clientHelloInnerTicks bs
 
-/-- the ClientHello payload has an extension of a class outside the cost model -/
-def clientHelloInnerOutside (pl : Bytes) : Bool :=
-  match parseHelloHeader pl with
-  | .error _ => false
-  | .ok (_, n1) =>
-    match parseVecCoded cipherSuiteParam Gen.TlsCipherSuite.codes 2 (pl.drop n1) with
-    | .error _ => false
-    | .ok (_, n2) =>
-      match parseVecCoded compressionParam Gen.TlsCompressionMethod.codes 1 (pl.drop (n1 + n2)) with
-      | .error _ => false
-      | .ok (_, n3) => optExtensionsOutside Gen.extVariantsClient (vp Gen.vec_TlsExtensionsClient) pl (n1 + n2 + n3)
-
-def hsFramedOutside (typ : Nat) (inner : Bytes → Bool) (bs : Bytes) : Bool :=
-  match (hsHeaderCodec typ).parse bs with
-  | .ok (pl, _) => inner pl
-  | .error _ => false
-
 /-- `TlsHandshakeServerHello._parse` / `TlsHandshakeHelloRetryRequest._parse` on the payload -/
 def serverHelloInnerTicks (pl : Bytes) : Nat :=
   helloHeaderTicks pl +
@@ -330,17 +330,6 @@ def serverHelloInnerTicks (pl : Bytes) : Nat :=
               optExtensionsTicks Gen.extVariantsServer (vp Gen.vec_TlsExtensionsServer) pl (n1 + n2 + n3)
 
 def serverHelloTicks (typ : Nat) (bs : Bytes) : Nat := hsFramedTicks typ serverHelloInnerTicks bs
-
-def serverHelloInnerOutside (pl : Bytes) : Bool :=
-  match parseHelloHeader pl with
-  | .error _ => false
-  | .ok (_, n1) =>
-    match parseCoded Gen.TlsCipherSuite.codes 2 (pl.drop n1) with
-    | .error _ => false
-    | .ok (_, n2) =>
-      match parseCoded Gen.TlsCompressionMethod.codes 1 (pl.drop (n1 + n2)) with
-      | .error _ => false
-      | .ok (_, n3) => optExtensionsOutside Gen.extVariantsServer (vp Gen.vec_TlsExtensionsServer) pl (n1 + n2 + n3)
 
 /-- `TlsCertificates._parse`: every certificate is one `parse_bytes` (length + raw) -/
 def certificatesTicks (pl : Bytes) : Nat :=
@@ -380,19 +369,6 @@ def hsClassInnerTicks : HsClass → Bytes → Nat
   | .serverHelloDone => fun _ => 1
   | .certificateRequest => certificateRequestInnerTicks
 
-/-- the payload of a handshake class reaches an extension class outside the cost model -/
-def hsClassInnerOutside : HsClass → Bytes → Bool
-  | .clientHello => clientHelloInnerOutside
-  | .serverHello | .helloRetryRequest => serverHelloInnerOutside
-  | _ => fun _ => false
-
-/-- `TlsHandshakeMessageVariant._parse` on this input reaches an extension class outside the cost model -/
-def handshakeVariantOutside (bs : Bytes) : Bool :=
-  Gen.handshakeVariants.any fun e =>
-    match hsClassOfName e.1 with
-    | some c => hsFramedOutside c.typ (hsClassInnerOutside c) bs
-    | none => false
-
 def hsClassTicks (c : HsClass) (bs : Bytes) : Nat := hsFramedTicks c.typ (hsClassInnerTicks c) bs
 
 /-- one alternative of `TlsHandshakeMessageVariant` with its cost (an unmodelled class runs the header only) -/
@@ -412,14 +388,29 @@ def codedItemC (codes : List Nat) : Nat := codes.length + 2
 /-- slope and offset of a vector of coded items: `vecCodedTicks p codes k bs ≤ codedVecA codes * bs.length + 4` -/
 def codedVecA (codes : List Nat) : Nat := codedItemC codes + 2
 
+/-- slope of one vector of opaque-coded names: `nameTicks ≤ 2 * n + (table.length + 5)` per name -/
+def nameVecA (table : List Gen.WireName) : Nat := 2 + (table.length + 5) + 2
+
+/-- slope of the key share vector: per entry the member search, the key vector, the fallback -/
+def keyShareVecA : Nat := 2 + (Gen.TlsNamedCurve.codes.length + 7) + 2
+
+/-- slope of the SCT vector -/
+def sctVecA : Nat := 2 + (Gen.TlsSignatureAndHashAlgorithm.codes.length + 14) + 2
+
+/-- slope and offset of the body parsers of the structured bodies (`ext2BodyTicks`) -/
+def ext2BodyA : Nat :=
+  nameVecA Gen.TlsProtocolName_wire + nameVecA Gen.TlsNextProtocolName_wire + keyShareVecA + sctVecA +
+    codedVecA Gen.TlsTokenBindingParamater.codes + 7 + 4
+def ext2BodyC : Nat := Gen.TlsNamedCurve.codes.length + 12
+
 /-- slope of the body parsers of the modelled extension classes -/
 def extBodyA : Nat :=
   codedVecA Gen.TlsNamedCurve.codes + codedVecA Gen.TlsECPointFormat.codes +
     codedVecA Gen.TlsSignatureAndHashAlgorithm.codes + codedVecA Gen.TlsPskKeyExchangeMode.codes +
-    codedVecA Gen.TlsCertificateCompressionAlgorithm.codes + codedVecA Gen.TlsVersion.codes + 2
+    codedVecA Gen.TlsCertificateCompressionAlgorithm.codes + codedVecA Gen.TlsVersion.codes + 2 + ext2BodyA
 
 /-- offset of the body parsers -/
-def extBodyC : Nat := Gen.TlsVersion.codes.length + 5
+def extBodyC : Nat := Gen.TlsVersion.codes.length + 5 + ext2BodyC
 
 /-- the header cost of one alternative -/
 def extHeaderC : Nat := Gen.ExtensionType.codes.length + 3
